@@ -221,6 +221,16 @@ impl BatchBlobStore for ZeroLengthBlobStore {
     where
         I: IntoIterator<Item = Vec<u8>>,
     {
+        // Refuse the whole batch before storing anything: a batch that fails half way would leave
+        // records behind whose ids the caller never receives
+        let blobs: Vec<Vec<u8>> = blobs.into_iter().collect();
+        if let Some(bad) = blobs.iter().find(|blob| !blob.is_empty()) {
+            return Err(ZiporaError::invalid_parameter(format!(
+                "ZeroLengthBlobStore only accepts empty blobs, got {} bytes",
+                bad.len()
+            )));
+        }
+
         let mut ids = Vec::new();
         for blob in blobs {
             let id = self.put(&blob)?;
